@@ -49,3 +49,34 @@ func RandString(n int, pool string) string {
 	}
 	return string(b)
 }
+
+// HeredocTag return a random here-document delimiter ("EOF" and ten random upper letters)
+// for the given document bodies. The first letter of the delimiter is moved away from "E"
+// when a line of a body starts with it: a line that begins like the delimiter is re-read by
+// the shell, and dash (the /bin/sh of many systems) loses a byte >= 0x80 that follows such
+// a partial match, so a value line like "Eé" would reach the variable damaged.
+func HeredocTag(bodies ...string) string {
+	var (
+		used [256]bool
+		tag  = "EOF" + RandString(10, UpperAlphaBytes)
+	)
+	for _, body := range bodies {
+		lineStart := true
+		for i := 0; i < len(body); i++ {
+			if lineStart {
+				used[body[i]] = true
+			}
+			lineStart = body[i] == '\n'
+		}
+	}
+	if !used[tag[0]] {
+		return tag
+	}
+	for i := 0; i < len(AlphaBytes); i++ {
+		first := AlphaBytes[(i+len(LowerAlphaBytes))%len(AlphaBytes)] // upper letters first
+		if !used[first] {
+			return string(first) + tag
+		}
+	}
+	return tag
+}
